@@ -134,9 +134,10 @@ class Gen:
             n = self.nm.new("K_")
             r = rng.random()
             if r < 0.4 or not ints:
-                v = rng.choice([rng.randint(1, 12), rng.randint(1, 40), rng.randint(-1000, 100000)])
+                v = rng.choice([rng.randint(1, 12), rng.randint(1, 40), rng.randint(-1000, 100000), 0x7FFF, 2 ** 31 - 1, 2 ** 40])
                 expr = str(v)
-                sections["constants"].append(f"  {n}: {expr}")
+                # YAML also accepts hexadecimal integers (the core definitions use them)
+                sections["constants"].append(f"  {n}: " + (f"0x{v:X}" if v >= 0 and rng.random() < 0.2 else expr))
             elif r < 0.55:
                 v = rng.choice([2.5, 0.001, -17.25, 1e-05, 100.0, 3.0e8])
                 expr = repr(v)
@@ -271,7 +272,7 @@ class Gen:
             extra = [s for s in local_structs + imported_structs + imported_msgs + local_msgs if depth_of(s) < 3 and D.defs[s]["kind"] != "signal"]
             if r < 0.2:
                 D.defs[n] = {"kind": "signal", "id": mid, "fields": [], "copy_of": None, "file": fname}
-                sections["message_defs"].append(f"  {n}:\n    id: {mid}\n    fields: null")
+                sections["message_defs"].append(f"  {n}:\n    id: " + (f"0x{mid:X}" if rng.random() < 0.2 else str(mid)) + "\n    fields: null")
                 D.features.add("signal")
             elif r < 0.3 and extra:
                 src = rng.choice(extra)
